@@ -82,6 +82,14 @@ def run(rep):
         rep.check(not stale, "R15.b", file, "c_inside", "every path through the edge step (including `continue`) advances the previous vertex to the edge's second vertex",
                   f"{len(stale)} path(s) leave the iteration with the previous vertex unchanged, e.g. under {[show(c)[:50] for c, _t in stale[0][1]][-1:] if stale else ''}",
                   line=el.get("_line"), firm=True)
+        # every edge is counted: an iteration that leaves the edge loop (break / return) with the running parity abandons the edges after it
+        def decided(env_):
+            vals = [v for k_, v in env_.items() if k_.startswith("inside[")]
+            return bool(vals) and all(v[0] == 'num' for v in vals)
+        early = [f_ for f_ in full.finals if f_[2] in ("BreakStmt", "return") and not decided(f_[0])]
+        rep.check(not early, "R15.b", file, "c_inside", "no iteration leaves the edge loop before the last edge with the crossing parity still open",
+                  f"{len(early)} path(s) break out of the edge loop, e.g. under {[show(c)[:60] for c, _t in early[0][1]][-1:] if early else ''}: the edges after that vertex are never tested "
+                  "(a vertex list that passes through its first vertex again loses a lobe)", line=el.get("_line"), firm=True)
     except Undecided as ex:
         rep.undecided("R15.b", file, "c_inside", "every path through the edge step advances the previous vertex", str(ex), line=el.get("_line"))
 
@@ -238,6 +246,23 @@ def run(rep):
         cut = [show(x)[:60] for _c, alt in pq.split_where(val_) for x in pq.find(alt, lambda y: pq.call_named(y, "getitem") or pq.call_named(y, "delete") or pq.call_named(y, "unique"))]
         rep.check(not cut and pq.mentions(val_, lambda y: y == ('sym', pn_)), "R15.b", "gis/gutils.py", "points_inside_polygon",
                   f"`{pn_}` handed to the kernel is the caller's array, all rows (conversions only)", f"{cut[:1]}", line=st.call.lineno, firm=True)
+    # the tolerance is an absolute one in the kernel (edges with |y1 - y2| <= atol are treated as horizontal): what reaches it must not depend
+    # on the coordinates, or the answer changes when polygon and points are translated together
+    tol_ = pa_.get("atol")
+    cons_t = "the tolerance handed to the kernel is the caller's `atol` (independent of the coordinates)"
+    if tol_ is None:
+        rep.undecided("R15.b", "gis/gutils.py", "points_inside_polygon", cons_t, "argument not bound", line=st.call.lineno)
+    else:
+        alts_ = [alt for _c, alt in pq.split_where(tol_)]
+        data_dep = [alt for alt in alts_ if pq.mentions(alt, lambda y: y in (('sym', 'polygon'), ('sym', 'points')))]
+        if data_dep:
+            rep.violation("R15.b", "gis/gutils.py", "points_inside_polygon", cons_t,
+                          f"tolerance computed from the data: {show(data_dep[0])[:120]}: with large coordinates a gently sloping edge is taken for horizontal and its "
+                          "crossing is not interpolated", line=st.call.lineno, firm=True)
+        elif all(pq.same(alt, "atol") for alt in alts_):
+            rep.proved("R15.b", "gis/gutils.py", "points_inside_polygon", cons_t, line=st.call.lineno)
+        else:
+            rep.undecided("R15.b", "gis/gutils.py", "points_inside_polygon", cons_t, show(tol_)[:120], line=st.call.lineno)
     names = {pn: ast.unparse(x[0]) for pn, x in st.args.items()}
     rep.check(names.get("points") == "points" and names.get("polygon") == "polygon" and names.get("atol") == "atol", "R15.b", "gis/gutils.py", "points_inside_polygon",
               "points, polygon and tolerance bound to the same-named shim parameters", str(names), line=st.call.lineno)
